@@ -310,6 +310,10 @@ MsgLoop:
 				return
 			}
 			continue MsgLoop
+		default: // reserved frame type
+			rs.log.Print("Received frame of reserved type, closing")
+			_ = rs.conn.Close()
+			return
 		}
 
 		// It is OK for the router to block a client since routing should be
